@@ -875,6 +875,20 @@ def place_origin(body, x, _depth=0):
     return base, fields
 
 
+def arg_by_type(body, cs, ty_s, fallback):
+    """the argument of a call whose type is `ty_s` (exactly one such argument), else the positional fallback: the order
+    of a private function's parameters is not part of its meaning"""
+    hits = []
+    for i, a in enumerate(cs.args):
+        pl = op_place(a)
+        t = pl["t"] if pl is not None else (a.get("k") or {}).get("ty")
+        if isinstance(t, int) and body.facts.types[t]["s"] == ty_s:
+            hits.append(a)
+    if len(hits) == 1:
+        return hits[0]
+    return cs.args[fallback] if fallback < len(cs.args) else None
+
+
 def promoted_variant(body, op, _depth=0):
     """(adt path, variant name, discriminant) if the operand is (a copy / reborrow of) a promoted constant that refers to a
     field-less enum variant, e.g. the `&Enum::Variant` operand of a derived `==`; None otherwise"""
